@@ -128,8 +128,13 @@ def excel_rows(source_path, sheet=1):
     assert sheet >= 1, "sheet=%r" % sheet
 
     location = errors.Location(source_path, has_cell=True)
+    # Read the file here so an unreadable file results in an EnvironmentError while any error xlrd has with
+    # the contents of the file, possibly even an EnvironmentError from seeking in a damaged ZIP archive, is a
+    # DataFormatError.
+    with io.open(source_path, "rb") as source_file:
+        source_contents = source_file.read()
     try:
-        with xlrd.open_workbook(source_path) as book:
+        with xlrd.open_workbook(source_path, file_contents=source_contents) as book:
             if book.nsheets < sheet:
                 raise errors.DataFormatError(
                     "Excel file must contain at least %d sheet(s) instead of just %d" % (sheet, book.nsheets), location
@@ -147,7 +152,7 @@ def excel_rows(source_path, sheet=1):
         raise errors.DataFormatError("cannot read Excel file: %s" % error, location)
     except UnicodeError as error:
         raise errors.DataFormatError("cannot decode Excel data: %s" % error, location)
-    except (errors.DataFormatError, EnvironmentError):
+    except errors.DataFormatError:
         raise
     except Exception as error:
         # For example zipfile.BadZipFile, zlib.error or struct.error caused by a truncated or damaged file.
